@@ -60,6 +60,21 @@ CHECKS["C06"] = dict(
     note="Bounded call sequences; result equality across the garbage pair via interned SHA-256 signatures computed by the harness.",
     design="4 (C06)")
 
+CHECKS["C12"] = dict(
+    text="Tracker.tla: the fold over event items (code-shaped) is model-checked against the arg-min / most-recent definition over "
+         "the whole history for every bounded history (NaN, ties, infeasible, missing functions, gradient items, untracked sources, "
+         "sign-flipping transform, tolerance None); every history is emitted on a real Plan with a tracker handler and the kept "
+         "result read back after each event; real BasicOptimizer runs (SLSQP/COBYLA, maximisation, NaN first) are validated too.",
+    note="Bounded histories; violations chosen 0 or 10x tolerance; ties accept any minimiser.",
+    design="4 (C12)")
+CHECKS["C19"] = dict(
+    text="PluginManager.tla: registry as ordered sequence; TLC checks no-duplicates, bare names never return non-discoverable "
+         "plug-ins, qualified names consult only the named plug-in and manager independence (action property) over all call "
+         "sequences of length 3 (thorough 4); every sequence is executed on real PluginManager objects and validated by Trace_C19, "
+         "whose initial state is the registry discovered from the installation; plus random histories of length 4-8.",
+    note="Optimizer plug-in type; test universe of three plug-ins with overlapping method sets.",
+    design="4 (C19)")
+
 NOT_APPLICABLE = {}
 
 def main():
